@@ -652,6 +652,13 @@ func verifC10Gen(r *verifutil.Rand, i int, thorough bool) []string {
 	if i < len(verifC10Hostile) {
 		return []string{verifC10LoadOp([]byte(verifC10Hostile[i]), nil, nil, nil)}
 	}
+	i -= len(verifC10Hostile)
+	if i < verifC10HCount() {
+		return []string{verifC10HCase(i)}
+	}
+	if r.Chance(1, 12) {
+		return []string{verifC10HRandom(r)}
+	}
 	switch c := r.Intn(100); {
 	case c < 30:
 		top := verifC10GenConf(r, false)
